@@ -1609,4 +1609,198 @@ theorem read_faithful_aux (q : WfReq) (rest : Bytes) (hw : WellFormed q) :
     simp only [ht]
     rfl
 
+/-- `read_faithful_aux` on any healthy socket (whatever has been written to the peer so far) -/
+theorem read_faithful_sock (s : Sock) (q : WfReq) (rest : Bytes) (hw : WellFormed q) (he : s.err = 0)
+    (hc : s.closed = false) (hi : s.inp = serialize q ++ rest) :
+    ∃ t, parseTarget q.target = .ok t ∧
+      AslModel.HttpParse.read s =
+        .ok ({ method := q.method, res := q.target, proto := q.proto, path := t.path, query := t.query,
+               fragment := t.fragment, parts := t.parts, headers := hdrDic q.headers, body := q.body },
+             { s with inp := rest }) := by
+  obtain ⟨t, ht, _, _⟩ := parseTarget_ok q.target
+  refine ⟨t, ht, ?_⟩
+  obtain ⟨hp0, hp1, hp2, hp3⟩ := hw.proto_ok
+  have hline : s.readLine =
+      (q.method ++ 32 :: (q.target ++ 32 :: (q.proto ++ [13])),
+       { s with inp := hdrBlock q.headers ++ 13 :: 10 :: (q.body ++ rest) }) := by
+    apply readLine_line _ _ _ he hc
+    · rw [hi]; simp [serialize]
+    · intro c hcm
+      simp only [List.mem_append, List.mem_cons, List.not_mem_nil, or_false] at hcm
+      rcases hcm with h | rfl | h | rfl | h | rfl
+      · exact (hw.method_ok c h).2.2
+      · decide
+      · exact (hw.target_ok c h).2.2
+      · decide
+      · exact hp1 c h
+      · decide
+    · have := hw.line_len
+      simp only [List.length_append, List.length_cons, List.length_nil]; omega
+  unfold AslModel.HttpParse.read
+  simp only [hline]
+  have hne : ((q.method ++ 32 :: (q.target ++ 32 :: (q.proto ++ [13]))).length == 0) = false := by simp
+  have he' : (s.err != 0) = false := by simp [he]
+  simp only [he', hne, Bool.or_self, Bool.false_eq_true, if_false]
+  rw [parseRequestLine_faithful q.method q.target (q.proto ++ [13])
+    (fun c hc => ⟨(hw.method_ok c hc).1, (hw.method_ok c hc).2.1⟩)
+    (fun c hc => ⟨(hw.target_ok c hc).1, (hw.target_ok c hc).2.1⟩)]
+  simp only [bind, Except.bind]
+  have hproto : trimmed (q.proto ++ [13]) = q.proto := by
+    have := trimmed_core [] q.proto [13] (by simp) (by decide) hp0 hp2 hp3
+    simpa using this
+  rw [hproto]
+  unfold readHeaders
+  rw [iterate_headers q.headers (q.body ++ rest) hw.headers_ok _
+    { s with inp := hdrBlock q.headers ++ 13 :: 10 :: (q.body ++ rest) } [] [] [] he hc rfl
+    (by have := hdrBlock_length q.headers; simp only [List.length_append, List.length_cons]; omega)]
+  simp only []
+  have hfold : List.foldl (fun d nv => setHeader d nv.fst nv.snd) [] q.headers = hdrDic q.headers := rfl
+  simp only [hfold]
+  have hexp : ∀ x : Sock, expectContinue x (hdrDic q.headers) = x := by
+    intro x
+    unfold expectContinue
+    simp only [hw.no_expect, Bool.false_eq_true, if_false]
+  rw [hexp]
+  rcases hw.framing with ⟨hb, hcl⟩ | ⟨hb, hcl, hval⟩
+  · rw [readBody_none _ _ hcl hw.not_chunked]
+    simp only [ht, hb, List.nil_append]
+    rfl
+  · rw [readBody_content_length { s with inp := q.body ++ rest } _ q.body rest he hc rfl hb hcl hval hw.not_chunked]
+    simp only [ht]
+    rfl
+
+/-! ### the keep-alive loop hands over every pipelined request, in order -/
+
+/-- the request the application sees for a well-formed `q` -/
+def reqOf (q : WfReq) : Req :=
+  match parseTarget q.target with
+  | .ok t => { method := q.method, res := q.target, proto := q.proto, path := t.path, query := t.query,
+               fragment := t.fragment, parts := t.parts, headers := hdrDic q.headers, body := q.body }
+  | .error _ => {}
+
+theorem read_faithful_reqOf (s : Sock) (q : WfReq) (rest : Bytes) (hw : WellFormed q) (he : s.err = 0)
+    (hc : s.closed = false) (hi : s.inp = serialize q ++ rest) :
+    AslModel.HttpParse.read s = .ok (reqOf q, { s with inp := rest }) ∧
+    (reqOf q).method = q.method ∧ (reqOf q).proto = q.proto := by
+  obtain ⟨tg, htg, hread⟩ := read_faithful_sock s q rest hw he hc hi
+  unfold reqOf
+  rw [htg]
+  exact ⟨hread, rfl, rfl⟩
+
+/-- `q` is dispatched to the application and the connection is kept: not OPTIONS (answered by the server itself),
+    a non-empty decoded path, and neither `Connection: close` nor HTTP/1.0 without keep-alive -/
+structure Dispatched (q : WfReq) : Prop where
+  not_options : (cstr q.method == sOptions) = false
+  path_ne : (reqOf q).path.length ≠ 0
+  keeps : ((cstr (reqOf q).proto == sHttp10 && cstr ((header (reqOf q).headers sConnection).map toLower) != sKeepAlive)
+            || cstr ((header (reqOf q).headers sConnection).map toLower) == sClose) = false
+
+theorem write_open (s : Sock) (b : Bytes) (hc : s.closed = false) :
+    (s.write b).err = s.err ∧ (s.write b).closed = false ∧ (s.write b).inp = s.inp := by
+  unfold Sock.write
+  by_cases h1 : b.isEmpty = true
+  · simp [h1, hc]
+  · simp [h1, hc]
+
+theorem respond_open (r : Req) (s : Sock) (hc : s.closed = false) :
+    (respond r s).1.err = s.err ∧ (respond r s).1.closed = false ∧ (respond r s).1.inp = s.inp := by
+  unfold respond
+  simp only []
+  split
+  · exact write_open _ _ hc
+  · obtain ⟨h1, h2, h3⟩ := write_open s (responseBytes (if (cstr r.proto == sHttp10) = true then sHttp10 else sHttp11)
+        (setHeader (if (cstr (List.map toLower (header r.headers sConnection)) == sKeepAlive) = true then
+          setHeader [] sConnection sKeepAlive else []) sContentLength (decimal (ofStr "ok").length)) []) hc
+    obtain ⟨h4, h5, h6⟩ := write_open _ (ofStr "ok") h2
+    exact ⟨h4.trans h1, h5, h6.trans h3⟩
+
+theorem respond_stop (r : Req) (s : Sock) :
+    (respond r s).2 = ((cstr r.proto == sHttp10 && cstr ((header r.headers sConnection).map toLower) != sKeepAlive)
+            || cstr ((header r.headers sConnection).map toLower) == sClose) := by
+  unfold respond
+  rfl
+
+theorem serialize_length_pos (q : WfReq) : 0 < (serialize q).length := by
+  unfold serialize
+  simp only [List.length_append, List.length_cons]
+  omega
+
+theorem flatMap_serialize_length (qs : List WfReq) : qs.length ≤ (qs.flatMap serialize).length := by
+  induction qs with
+  | nil => simp
+  | cons q t ih =>
+    have := serialize_length_pos q
+    simp only [List.flatMap_cons, List.length_append, List.length_cons]
+    omega
+
+theorem serveStep_dispatch (s : Sock) (acc : List Req) (q : WfReq) (rest : Bytes) (hw : WellFormed q)
+    (hd : Dispatched q) (he : s.err = 0) (hc : s.closed = false) (hi : s.inp = serialize q ++ rest) :
+    serveStep ⟨s, acc⟩ = .ok (.next ⟨(respond (reqOf q) { s with inp := rest }).1, reqOf q :: acc⟩) := by
+  obtain ⟨inp, err, closed, out⟩ := s
+  simp only at he hc hi
+  subst he hc
+  unfold serveStep
+  have hne : inp.isEmpty = false := by
+    have := serialize_length_pos q
+    cases hs : inp with
+    | nil => rw [hs] at hi; have := congrArg List.length hi; simp at this; omega
+    | cons a b => rfl
+  have he' : ((0 : Nat) != 0) = false := rfl
+  simp only [he', hne, Bool.or_self, Bool.false_eq_true, if_false]
+  obtain ⟨hread, hrm, hrp⟩ := read_faithful_reqOf ⟨inp, 0, false, out⟩ q rest hw rfl rfl hi
+  rw [hread]
+  simp only [bind, Except.bind]
+  have hm : ((reqOf q).method.length == 0) = false := by
+    rw [hrm]
+    have := hw.method_ne
+    cases hmm : q.method with
+    | nil => exact absurd hmm this
+    | cons a b => rfl
+  have hp : ((reqOf q).path.length == 0) = false := by simpa using hd.path_ne
+  have hpr : ((reqOf q).proto.length == 0) = false := by
+    rw [hrp]
+    have := hw.proto_ok.1
+    cases hmm : q.proto with
+    | nil => exact absurd hmm this
+    | cons a b => rfl
+  simp only [he', hm, hp, hpr, Bool.or_self, Bool.false_eq_true, if_false]
+  have hstop : (respond (reqOf q) ⟨rest, 0, false, out⟩).2 = false := by
+    rw [respond_stop]
+    exact hd.keeps
+  have hopt : (cstr (reqOf q).method == sOptions) = false := by rw [hrm]; exact hd.not_options
+  simp only [hstop, hopt, Bool.false_eq_true, if_false, pure, Except.pure]
+
+theorem serveStep_eof (s : Sock) (acc : List Req) (hi : s.inp = []) :
+    serveStep ⟨s, acc⟩ = .ok (.done (s, acc.reverse)) := by
+  unfold serveStep
+  have : s.inp.isEmpty = true := by rw [hi]; rfl
+  simp only [this, Bool.or_true, if_true]
+  rfl
+
+theorem iterate_serve_pipelined (qs : List WfReq) (hq : ∀ q ∈ qs, WellFormed q ∧ Dispatched q) :
+    ∀ (fuel : Nat) (s : Sock) (acc : List Req), s.err = 0 → s.closed = false → s.inp = qs.flatMap serialize →
+      qs.length < fuel →
+      ∃ s', iterate serveStep fuel ⟨s, acc⟩ = .ok (s', acc.reverse ++ qs.map reqOf) ∧ s'.inp = [] ∧ s'.err = 0 := by
+  induction qs with
+  | nil =>
+    intro fuel s acc he hc hi hf
+    obtain ⟨f, rfl⟩ : ∃ f, fuel = f + 1 := ⟨fuel - 1, by omega⟩
+    simp only [iterate]
+    rw [serveStep_eof s acc (by simpa using hi)]
+    exact ⟨s, by simp [pure, Except.pure], by simpa using hi, he⟩
+  | cons q t ih =>
+    intro fuel s acc he hc hi hf
+    obtain ⟨f, rfl⟩ : ∃ f, fuel = f + 1 := ⟨fuel - 1, by simp at hf; omega⟩
+    obtain ⟨hw, hd⟩ := hq q (by simp)
+    simp only [iterate]
+    rw [serveStep_dispatch s acc q (t.flatMap serialize) hw hd he hc (by rw [hi]; simp)]
+    simp only []
+    obtain ⟨h1, h2, h3⟩ := respond_open (reqOf q) { s with inp := t.flatMap serialize } hc
+    obtain ⟨s', hs', hinp, herr⟩ := ih (fun x hx => hq x (by simp [hx])) f
+      (respond (reqOf q) { s with inp := t.flatMap serialize }).1 (reqOf q :: acc) (h1.trans he) h2 h3
+      (by simp at hf; omega)
+    refine ⟨s', ?_, hinp, herr⟩
+    rw [hs']
+    simp
+
 end AslProofs.HttpParse
